@@ -21,6 +21,9 @@ const (
 type AttrVal struct {
 	Value   string
 	XsiType bool
+	// PlainTwin: next to xsi:type the element carries an unqualified attribute of the same local name (the IdP's own
+	// annotation, e.g. type="work"): two different attributes, allowed by the schema (AttributeValue is xs:anyType)
+	PlainTwin bool
 }
 
 // AttrRec is one Attribute.
@@ -260,6 +263,9 @@ func (a *Assertion) Node() *Node {
 				vn := El(NSA, "AttributeValue").T(v.Value)
 				if v.XsiType {
 					vn.Attrs = append(vn.Attrs, Attr{NS: NSXSI, Name: "type", Value: "xs:string"})
+					if v.PlainTwin {
+						vn.Attrs = append(vn.Attrs, Attr{Name: "type", Value: "work"})
+					}
 				}
 				an.Add(vn)
 			}
